@@ -11,6 +11,11 @@ package search
 //     repository metadata) are recorded. The Coq model replays the listings and must agree at every step.
 //     Case encoding (compact): base names are interned per script (index into a name table), mtimes are
 //     exact ns offsets from the smallest mtime of the script.
+//   * HELD snapshots: the list a search takes with getLoaded() is taken after the drop and after every scan, KEPT
+//     (as a running Search/StreamSearch/List keeps it) while later scans replace / drop / add shards, and iterated
+//     again afterwards: it must still show exactly the shards it showed when it was taken (copy-on-write of the
+//     published list).  The later readings go into the Coq case (model: store of backing arrays, Model/RankedStore.v)
+//     and are judged by the Go oracle (`held-snapshot-mutated`).
 //   * Go oracle (independent of scan's code): newest supported version per builder-style name must be
 //     loaded with the CURRENT content, nothing else, a second scan is a no-op, every snapshot has one
 //     entry per key and one version per name, no panic.
@@ -117,6 +122,21 @@ type vfC19StepRec struct {
 	drops, loads []string
 	ts           []vfC19Ent // name, mtime
 	loaded       []vfC19Ent // name, content
+	held         []vfC19HeldObs
+}
+
+// a later reading of a held snapshot: id 2i = taken after the drop of scan i, 2i+1 = taken after scan i
+type vfC19HeldObs struct {
+	id   int
+	ents []vfC19Ent // name, content as the held slice shows them now
+}
+
+// a snapshot held like a running search holds it: the slice returned by getLoaded (NOT a copy) + what it showed then
+type vfC19Held struct {
+	id   int
+	snap []*rankedShard
+	ptrs []*rankedShard
+	ents []vfC19Ent
 }
 
 func vfC19Render(cur, next int, dir string, recs []vfC19StepRec) string {
@@ -149,7 +169,7 @@ func vfC19Render(cur, next int, dir string, recs []vfC19StepRec) string {
 	}
 	var steps []string
 	for _, s := range recs {
-		var l, d, ld, ts, lo []string
+		var l, d, ld, ts, lo, hd []string
 		for _, e := range s.listing {
 			l = append(l, "("+id(e.name)+","+off(e.mtime)+","+strconv.FormatUint(e.content, 10)+","+cBool(e.loadable)+")")
 		}
@@ -165,8 +185,15 @@ func vfC19Render(cur, next int, dir string, recs []vfC19StepRec) string {
 		for _, e := range s.loaded {
 			lo = append(lo, "("+id(e.name)+","+strconv.FormatUint(e.content, 10)+")")
 		}
-		steps = append(steps, fmt.Sprintf("(mkStep %s %s %s %s %s %s)", lst(l, "raw_ent"), cBool(s.panicked),
-			lst(d, "N"), lst(ld, "N"), lst(ts, "(N * N)"), lst(lo, "(N * N)")))
+		for _, h := range s.held {
+			var es []string
+			for _, e := range h.ents {
+				es = append(es, "("+id(e.name)+","+strconv.FormatUint(e.content, 10)+")")
+			}
+			hd = append(hd, "("+strconv.Itoa(h.id)+","+lst(es, "(N * N)")+")")
+		}
+		steps = append(steps, fmt.Sprintf("(mkStep %s %s %s %s %s %s %s)", lst(l, "raw_ent"), cBool(s.panicked),
+			lst(d, "N"), lst(ld, "N"), lst(ts, "(N * N)"), lst(lo, "(N * N)"), lst(hd, "(N * list (N * N))")))
 	}
 	return fmt.Sprintf("(CScan %s %s %s %s %s %s)", cZ(int64(cur)), cZ(int64(next)), cStr(dir), cZ(t0), lst(names, "(list N)"), cList(steps))
 }
@@ -176,6 +203,8 @@ type vfC19Recorder struct {
 	ss           *shardedSearcher
 	drops, loads []string
 	snapBad      []string
+	keyOf        map[*rankedShard]string // every rankedShard that was ever in the shards map -> its key
+	afterDrop    []*rankedShard          // getLoaded().shards right after the drop of the current scan
 }
 
 func (r *vfC19Recorder) load(keys ...string) {
@@ -187,12 +216,24 @@ func (r *vfC19Recorder) drop(keys ...string) {
 	r.drops = append(r.drops, keys...)
 	r.inner.drop(keys...)
 	r.checkSnap("after drop")
+	r.afterDrop = r.ss.getLoaded().shards // what a search starting between drop and load works on
+}
+func (r *vfC19Recorder) register() {
+	r.ss.mu.Lock()
+	defer r.ss.mu.Unlock()
+	if r.keyOf == nil {
+		r.keyOf = map[*rankedShard]string{}
+	}
+	for k, v := range r.ss.shards {
+		r.keyOf[v] = k
+	}
 }
 
 var vfC19Builder = regexp.MustCompile(`^(.+)_v(\d+)\.(\d{5})\.zoekt$`)
 
 // a snapshot (what a search would take with getLoaded) must hold one entry per key and one version per name
 func (r *vfC19Recorder) checkSnap(when string) {
+	r.register()
 	snap := r.ss.getLoaded().shards
 	r.ss.mu.Lock()
 	defer r.ss.mu.Unlock()
@@ -334,6 +375,35 @@ func vfC19Script(t *testing.T, r *vfRand, trial int) {
 
 	var recs []vfC19StepRec
 	var human []any
+	var held []*vfC19Held
+	relKey := func(p string) string { return strings.TrimPrefix(p, dir+"/") }
+	showSnap := func(snap []*rankedShard) []vfC19Ent {
+		var es []vfC19Ent
+		for _, sh := range snap {
+			k, ok := rec.keyOf[sh]
+			if !ok {
+				k = dir + "/<not-a-loaded-shard>"
+			}
+			es = append(es, vfC19Ent{name: relKey(k), content: vfC19Identity(sh)})
+		}
+		sort.Slice(es, func(i, j int) bool {
+			if es[i].name != es[j].name {
+				return es[i].name < es[j].name
+			}
+			return es[i].content < es[j].content
+		})
+		return es
+	}
+	hold := func(id int, snap []*rankedShard) {
+		held = append(held, &vfC19Held{id: id, snap: snap, ptrs: append([]*rankedShard(nil), snap...), ents: showSnap(snap)})
+	}
+	fmtEnts := func(es []vfC19Ent) string {
+		var xs []string
+		for _, e := range es {
+			xs = append(xs, fmt.Sprintf("%s=%d", e.name, e.content))
+		}
+		return "[" + strings.Join(xs, " ") + "]"
+	}
 	var failed = map[string]bool{}
 	fail := func(key, what string) {
 		if failed[key] {
@@ -426,7 +496,7 @@ func vfC19Script(t *testing.T, r *vfRand, trial int) {
 		}
 
 		// ---- scan
-		rec.drops, rec.loads, rec.snapBad = nil, nil, nil
+		rec.drops, rec.loads, rec.snapBad, rec.afterDrop = nil, nil, nil, nil
 		panicked := ""
 		func() {
 			defer func() {
@@ -482,6 +552,34 @@ func vfC19Script(t *testing.T, r *vfRand, trial int) {
 		}
 		if len(loads) > 0 && step > 0 {
 			classes["reload"] = true
+		}
+		// ---- held snapshots: take the lists a search would take now (after the drop, after the scan), and iterate
+		// the ones held since earlier scans again: the previous scan's (a reuse of the published list's storage
+		// shows at the very next publication) and this scan's after-drop list; at the last step all of them
+		if panicked == "" {
+			hold(2*step, rec.afterDrop)
+			hold(2*step+1, ss.getLoaded().shards)
+			for _, h := range held {
+				if !(step == nsteps-1 || h.id >= 2*(step-1)) || h.id == 2*step+1 {
+					continue
+				}
+				now := showSnap(h.snap)
+				sr.held = append(sr.held, vfC19HeldObs{id: h.id, ents: now})
+				same := len(h.snap) == len(h.ptrs)
+				for i := range h.ptrs {
+					same = same && h.snap[i] == h.ptrs[i]
+				}
+				if !same || fmtEnts(now) != fmtEnts(h.ents) {
+					when := fmt.Sprintf("after scan %d", h.id/2)
+					if h.id%2 == 0 {
+						when = fmt.Sprintf("after the drop of scan %d", h.id/2)
+					}
+					fail("held-snapshot-mutated", fmt.Sprintf("the shard list a search took with getLoaded() %s was rewritten under it: it showed %s then, and shows %s after scan %d (published lists must be copy-on-write: a running search iterates its list while shards are replaced)", when, fmtEnts(h.ents), fmtEnts(now), step))
+				}
+				if len(now) > 0 && h.id < 2*step {
+					classes["held-across-scan"] = true
+				}
+			}
 		}
 		recs = append(recs, sr)
 
@@ -619,5 +717,14 @@ func TestVerifC19(t *testing.T) {
 	}
 	for i := 0; i < nw; i++ {
 		vfC19Watch(t, rw, i)
+	}
+	// searches held open by blocking shards while shards are replaced (zz_verif_c19held_test.go); own PRNG stream
+	rh := vfNewRand(vfSeed() + 104729)
+	nh := 12
+	if vfTier() == "thorough" {
+		nh = 120
+	}
+	for i := 0; i < nh; i++ {
+		vfC19HeldSearch(t, rh, i)
 	}
 }
